@@ -230,8 +230,9 @@ Section Rebuild.
                    end
     | _ => r
     end.
-  Definition d_and_py (c : cls) (d : amap V) (ks : list string) : dres V := rerun_kw c (d_and c d ks).
-  Definition d_relabel_py (c : cls) (d : amap V) (a : relabel_arg) (kw : list (string * string)) : dres V := rerun_kw c (d_relabel c d a kw).
+  (* since /repo 1b2f78e all four pass the result dict POSITIONALLY (rerun_kw: the earlier keyword rebuild, kept for reference) *)
+  Definition d_and_py (c : cls) (d : amap V) (ks : list string) : dres V := rerun_pos c (d_and c d ks).
+  Definition d_relabel_py (c : cls) (d : amap V) (a : relabel_arg) (kw : list (string * string)) : dres V := rerun_pos c (d_relabel c d a kw).
   Definition d_getlist_py (c : cls) (d : amap V) (ks : list string) : dres V := rerun_pos c (d_getlist c d ks).
   Definition d_or_py (c : cls) (d : amap V) (o : amap V) : dres V := rerun_pos c (d_or c d o).
 End Rebuild.
